@@ -614,13 +614,16 @@ class TTFont(object):
 
     def ensureDecompiled(self, recurse: bool | None = None) -> None:
         """Decompile all the tables, even if a TTFont was opened in 'lazy' mode."""
+        if recurse is None:
+            recurse = self.lazy is not False
         for tag in self.keys():
             table = self[tag]
-            if recurse is None:
-                recurse = self.lazy is not False
             if recurse and hasattr(table, "ensureDecompiled"):
                 table.ensureDecompiled(recurse=recurse)
-        self.lazy = False
+        if recurse:
+            # a shallow pass leaves lazily loaded table contents undecoded, so
+            # the font must not be marked as fully loaded by it
+            self.lazy = False
 
     def __len__(self) -> int:
         return len(list(self.keys()))
